@@ -509,6 +509,44 @@ def judgeCmd (s : JState) (cmd : String) (impl : List String) : JState × List S
         | _ => (s2, r2)
       | none => (s1, [])
     | none => (s.flag ["trace missing-so"], [])
+  | "sond" :: _ =>
+    -- the save path is a directory: rename() fails for real: the save must report failure and leave no temporary
+    match nextLine impl with
+    | some (l, r) =>
+      match toks l with
+      | ["so", "0", _, _, "left=0"] => (s, r)
+      | ["so", "0", _, _, _] => (s.flag [s!"tmp-left-behind after-rename-failure {l}"], r)
+      | _ => (s.flag [s!"save-reported-success-although-rename-failed {l}"], r)
+    | none => (s.flag ["trace missing-so"], [])
+  | ["cl", _] =>
+    -- a file-size limit of L bytes hits the save in the middle of a block stdio flushes: `cl` the write fails,
+    -- `ck` the process is killed there.  A save that cannot write everything reports failure and leaves the old file and
+    -- no temporary; a killed one leaves the old file; with room for everything the save succeeds.
+    -- the lines of THIS command: its header `cl n=..` and what follows up to the next header
+    let body := (impl.drop 1).takeWhile (fun l => (l.startsWith "cl " ∨ l.startsWith "ck ") ∧ !l.startsWith "cl n=")
+    let mine := impl.take 1 ++ body
+    let rest := impl.drop mine.length
+    let n : Nat := (mine.findSome? (fun l => match toks l with
+      | ["cl", x] => if x.startsWith "n=" then (x.drop 2).toString.toNat? else none
+      | _ => none)).getD 0
+    let oldOk (st : String) : Bool := st == "old" ∨ st == "both" ∨ (st == "none" ∧ !s.hasFile)
+    let vs := mine.foldl (fun acc l =>
+      match toks l with
+      | [_, x] => if x.startsWith "n=" then acc else acc ++ [s!"trace unexpected {l}"]
+      | [c, L, "killed", st, _] =>
+        if c != "ck" then acc ++ [s!"trace unexpected {l}"]
+        else if oldOk st then acc else acc ++ [s!"atomic-save-file-{st} killed-at-size-limit {L}"]
+      | [_, L, ret, st, tmpf] =>
+        if tmpf != "tmp=0" then acc ++ [s!"tmp-left-behind at-size-limit {L} {ret}"]
+        else if ret == "ret=1" then
+          (if L.toNat?.getD 0 < n then acc ++ [s!"save-reported-success-beyond-size-limit {L} of {n}"]
+           else if st == "new" ∨ st == "both" then acc else acc ++ [s!"atomic-save-file-{st} at-size-limit {L} {ret}"])
+        else if oldOk st then
+          (if L.toNat?.getD 0 ≥ n then acc ++ [s!"save-failed-within-size-limit {L} of {n}"] else acc)
+        else acc ++ [s!"atomic-save-file-{st} at-size-limit {L} {ret}"]
+      | [_, L, "childcrash"] => acc ++ [s!"memory childcrash at-size-limit {L}"]
+      | _ => acc ++ [s!"trace unexpected {l}"]) []
+    (s.flag vs, rest)
   | "wf" :: _ => ({ s with snap := none, hasFile := true }, impl)
   | ["rm"] => ({ s with snap := none, hasFile := false }, impl)
   | ["rox", _, ext] =>
